@@ -618,6 +618,19 @@ pub fn main(
     if let Some(path) = &args.replay {
         std::process::exit(replay_file(id, path, replay));
     }
+    // Watchdog: a check that runs far longer than it ever should (code under test that has become
+    // extremely slow or hangs) is reported as inconclusive - exit 2 - never as a violation.
+    let limit = std::env::var("VERIF_WATCHDOG_S").ok().and_then(|v| v.parse::<u64>().ok()).unwrap_or(match args.tier {
+        Tier::Quick => 1_800,
+        Tier::Thorough => 6 * 3_600,
+    });
+    if limit > 0 {
+        std::thread::spawn(move || {
+            std::thread::sleep(std::time::Duration::from_secs(limit));
+            println!("INCONCLUSIVE property={id} reason=watchdog: the check did not finish within {limit} s (set VERIF_WATCHDOG_S to change the limit, 0 disables it)");
+            std::process::exit(2);
+        });
+    }
     let mut report = Report::new(id, &args);
     run(&args, &mut report);
     report.finish(rule, replay)
